@@ -1,5 +1,6 @@
 import Drivers.Proto
 import St4sd.Model.Restart
+import St4sd.Model.RestartKill
 /-! Model driver for property C12.
 
 Request: `{"op":"exec","old":bool,"fin":bool,"cfg":{maxRestarts:int|null,hookFileNamed,hookOn:[names],simulator,
@@ -12,7 +13,10 @@ hookOn:[names]|null},simulator,repeating,hookModule}`: the model's loader (`Rest
 returned as `"seen"`.
 Request `{"op":"mexec","fin":bool,"comps":[cfg + "file":name],"files":{name:hook answer},"inps":[{comp:n, ...inp}]}`
 (several components of one experiment, every hook file has one fixed answer):
-Answer `{"events":[{comp,code,restarts,resub,runs,shutdown}],"asked":[bool],"seen":[...]}`. -/
+Answer `{"events":[{comp,code,restarts,resub,runs,shutdown}],"asked":[bool],"seen":[...]}`.
+Request `{"op":"kexec","fin":bool,"firstRun":bool,"cfg":cfg,"inps":[{...inp, "kill":bool}]}` (plain Engine; `kill` = kill()
+is delivered to the engine instead of the launch): Answer `{"events":[{reported,killable,code,restarts,resub,runs,shutdown}]}`
+(`St4sd.RestartKill.kexec`; `reported` = the exit reason the engine reports when the controller decides). -/
 open Lean Proto St4sd.Restart
 
 def parseReason (s : String) : Except String Reason :=
@@ -126,6 +130,19 @@ def handle (j : Json) : Except String Json := do
     return jobj [("events", jarr (evs.map evJson)), ("asked", jarr ((askedLog fin old cfg St.init inps).map jbool)),
                  ("effMax", jint (effMax cfg)),
                  ("schemaValid", jbool (schemaValid cfg)), ("seen", jopt seenJson seen)]
+  | "kexec" =>
+    let fin ← getBool j "fin"
+    let firstRun ← getBool j "firstRun"
+    let (cfg, _) ← parseCfgW (← j.getObjVal? "cfg")
+    let ks ← (← getArr j "inps").mapM (fun m => do
+      let i ← parseInp m
+      let kill ← getBool m "kill"
+      pure (⟨if kill then .kill else .exits i.launch i.reason, i⟩ : St4sd.RestartKill.KInp))
+    let e0 := if firstRun then St4sd.RestartKill.run St4sd.RestartKill.Eng.init else St4sd.RestartKill.Eng.init
+    let evs := St4sd.RestartKill.kexec false fin cfg (St.init, e0) ks
+    return jobj [("events", jarr (evs.map (fun e => jobj [("reported", jstr e.reported.name), ("killable", jbool e.killable),
+                    ("code", jstr e.code.name), ("restarts", jnat e.st.restarts), ("resub", jnat e.st.resub),
+                    ("runs", jnat e.st.runs), ("shutdown", jbool e.st.shutdown)])))]
   | "mexec" =>
     let fin ← getBool j "fin"
     let comps ← (← getArr j "comps").mapM (fun c => do
